@@ -36,7 +36,13 @@ def gen_case(ctx: Ctx, kind: str):
                 bins=[rng.randint(-9, 40) for _ in range(members * nr * na)],
                 ro=dyadic(rng, 0, 8, 3), rs=dyadic(rng, 0.25, 4, 2) or 0.25,
                 ao=dyadic(rng, -2, 2, 3), **{"as": dyadic(rng, 0.125, 2, 3) or 0.125})
-    if kind == "aligned":
+    if kind == "nondyadic":
+        # samplings/offsets that are NOT exactly representable: (limit-offset)/sampling is then only near an integer
+        case["rs"] = rng.choice([0.7, 0.1, 0.3, 1 / 3, 0.35, 2.2, 1e-3])
+        case["as"] = rng.choice([2 * np.pi / 7, 0.1, np.pi / 8, 2 * np.pi / 12, 0.3])
+        case["ro"] = rng.choice([0.0, 0.2, 5.1, 1 / 3])
+        case["ao"] = rng.choice([0.0, 0.1, -np.pi / 5])
+    if kind in ("aligned", "nondyadic"):
         i0 = rng.randint(0, nr); i1 = rng.randint(i0, nr)
         j0 = rng.randint(0, na); j1 = rng.randint(j0, na)
         which = rng.choice(["r", "a", "ra", "ra", "none"])
@@ -66,18 +72,20 @@ class C13(Property):
     drive_file = "AbtemVerif/Drive/C13.lean"
     trusted = [
         "NUMPY-INDEXING: `array[..., slice, slice].sum(axis=(-2,-1))` follows Python slice semantics as modelled by `Polar.pySlice`",
-        "IEEE: float64 evaluation of `(limit - offset) / sampling` equals the exact quotient when all inputs are dyadic "
-        "(the generator only emits dyadic rationals; non-dyadic samplings can truncate one bin low — outside the model)",
+        "IEEE: float64 evaluation of `(limit - offset) / sampling` is within 1e-9 relative of the exact quotient of the float inputs "
+        "(the code snaps limits within that distance of a bin edge to the edge; the model applies the same rule to the exact rational "
+        "reading of the floats; dyadic and non-dyadic samplings are both generated)",
         "hand model `Polar.select/integrate` of the control flow around the generated index expressions (tied by correspondence)",
     ]
     assumptions = ["bin tables are compared through integer-valued float64 arrays (exact sums)"]
     rule = ("random polar measurements (1-3 scan members, nr<=7, na<=9, dyadic offsets/samplings); kinds: aligned limit pairs "
-            "(radial, azimuthal, both, none) and arbitrary/unaligned/reversed/out-of-range limits; distinct = distinct case JSON; "
+            "(radial, azimuthal, both, none) with dyadic and with non-representable samplings/offsets (0.7, 0.1, 1/3, 2pi/7 ...), and arbitrary/unaligned/reversed/out-of-range limits; distinct = distinct case JSON; "
             "non-trivial = at least one limit given")
 
     def correspondence(self, ctx: Ctx):
         drv = LeanDriver(self.drive_file)
         cases = [gen_case(ctx, "aligned") for _ in range(ctx.n(150, 3000))] + \
+                [gen_case(ctx, "nondyadic") for _ in range(ctx.n(150, 3000))] + \
                 [gen_case(ctx, "arbitrary") for _ in range(ctx.n(150, 3000))]
         lines, owners = [], []
         for c in cases:
@@ -95,7 +103,7 @@ class C13(Property):
                     model = ["err", t[1]]
                 else:
                     vals.append(int(t[5]))
-                    if c["idx"] is not None and c["kind"] == "aligned":
+                    if c["idx"] is not None and c["kind"] in ("aligned", "nondyadic"):
                         i0, i1, j0, j1 = c["idx"]
                         exp = [i0 if c["rl"] else 0, i1 if c["rl"] else c["nr"], j0 if c["al"] else 0, j1 if c["al"] else c["na"]]
                         ctx.agree("select(aligned) = stated index ranges", c, [int(x) for x in t[1:5]], exp)
@@ -126,8 +134,9 @@ class C13(Property):
                 ctx.violation("azimuthal-partition-not-additive", c, {"parts": [got, g2], "whole": g3})
 
     def conformance(self, ctx: Ctx):
-        for _ in range(ctx.n(200, 4000)):
-            c = gen_case(ctx, "aligned")
+        for k in range(ctx.n(400, 8000)):
+            c = gen_case(ctx, "aligned" if k % 2 == 0 else "nondyadic")
+            ctx.count("oracle:" + c["kind"])
             self.oracle(ctx, c)
             ctx.case(c, nontrivial=c["rl"] is not None or c["al"] is not None)
 
